@@ -167,7 +167,11 @@ def run_scenario(rng, chart, spec, cases, stats, chart_key):
                 sc.interp._evaluator._context['c'] = 0
             continue
         if spec.p_detach and rng.random() < spec.p_detach and sc.listeners:
-            sc.detach(rng.randrange(len(sc.listeners)))
+            lid = rng.randrange(len(sc.listeners))
+            kind, was_on = sc.listeners[lid][0], sc.listeners[lid][3]
+            sc.detach(lid)
+            if was_on and kind in ('callable', 'rec') and rng.random() < 0.6:
+                sc.add_listener(kind)        # a target swapped for another one, no step in between
             continue
         if r < spec.p_clock + spec.p_bits + spec.p_queue:
             ev = make_event(rng, used)
@@ -236,10 +240,11 @@ def emit_and_check(prop, charts, cases, shard=60):
             f.write(';\n'.join(tocoq.c_icase(c, local[c['chart_key']], pnames) for c in chunk))
             f.write('\n].\nEval vm_compute in (check_icases cases).\n')
             # the decidable forms of the theorems' hypotheses, evaluated on the very charts that were run
-            f.write('From SismicProofs Require C02Proofs C03Proofs.\n')
+            f.write('From SismicProofs Require C02Proofs C03Proofs WFProofs.\n')
             f.write('Definition charts : list chart := [%s].\n' % '; '.join(local.values()))
             f.write('Eval vm_compute in [N.of_nat (length (filter C02Proofs.wf_chart_b charts)); '
-                    'N.of_nat (length (filter C03Proofs.tree_okb charts)); N.of_nat (length charts)].\n')
+                    'N.of_nat (length (filter C03Proofs.tree_okb charts)); N.of_nat (length (filter WFProofs.dict_okb charts)); '
+                    'N.of_nat (length charts)].\n')
         files.append(fn)
     res = coq_eval_files(prop, files)
     masks = {}
@@ -251,15 +256,16 @@ def emit_and_check(prop, charts, cases, shard=60):
         for i, m in parse_pairs(out):
             masks[k * shard + i] = m
         import re
-        h = re.search(r'\[(\d+)%N;\s*(\d+)%N;\s*(\d+)%N\]', out)
+        h = re.search(r'\[(\d+)%N;\s*(\d+)%N;\s*(\d+)%N;\s*(\d+)%N\]', out)
         if h:
             HYP['wf_chart_b'] += int(h.group(1))
             HYP['tree_okb'] += int(h.group(2))
-            HYP['charts_evaluated'] += int(h.group(3))
+            HYP['dict_okb'] += int(h.group(3))
+            HYP['charts_evaluated'] += int(h.group(4))
     return masks, fails
 
 
-HYP = dict(wf_chart_b=0, tree_okb=0, charts_evaluated=0)
+HYP = dict(wf_chart_b=0, tree_okb=0, dict_okb=0, charts_evaluated=0)
 
 
 def describe_case(case, charts):
